@@ -1057,7 +1057,7 @@ func TestVerifC11Long(t *testing.T) {
 	// the recipe the resolver starts from is drawn by map order: the longest walk differs from run to run, so several runs
 	space := []c11LongCase{{1000000, 10, 0}, {1000000, 10, 1}, {1000000, 10, 2}, {1000000, 1000002, 0}, {1000000, 9, 0}, {400000, 400002, 0}}
 	if vThorough() {
-		space = append(space, c11LongCase{1500000, 10, 1}, c11LongCase{1500000, 1500001, 0}, c11LongCase{2000000, 10, 0}, c11LongCase{400000, 400002, 2})
+		space = append(space, c11LongCase{1500000, 10, 1}, c11LongCase{1500000, 1500002, 0}, c11LongCase{2000000, 10, 0}, c11LongCase{400000, 400002, 2})
 	}
 	vEnum(t, "C11", "c11.longchain",
 		"an acyclic chain of 1 000 000 (thorough: up to 2 000 000) references through the real binary, with --maxdepth 10 (maximum-depth error, three commands) and with a limit above the length of the chain (success)",
